@@ -753,4 +753,45 @@ theorem remExts_nonneg (xs : List Ext) (h : ∀ x ∈ xs, 0 ≤ x.avail) : 0 ≤
     have := ih (fun y hy => h y (by simp [hy]))
     simp only [remExts]; omega
 
+/-! ## master / child weights -/
+
+theorem zipMin_map (fs : List Farmer) :
+    zipMin (fs.map (fun f => posValue f.master)) (fs.map (fun f => childValue f.children)) = fs.map weight := by
+  induction fs with
+  | nil => rfl
+  | cons f fs ih => simp only [List.map_cons, zipMin, ih, weight]
+
+theorem chopRound_nonneg' (x : Int) (hx : 0 ≤ x) : 0 ≤ Dec.chopRound x := chopRound_nonneg x hx
+
+theorem posValue_nonneg (p : Pos) (ha : 0 ≤ p.amt) (hd : 0 < p.dec) : 0 ≤ posValue p := by
+  unfold posValue
+  split
+  · exact Int.le_refl 0
+  · rename_i ht
+    have hP := P_pos
+    have ht : 0 < p.twa := by omega
+    unfold Dec.mul Dec.quo Dec.ofInt Dec.PP
+    have h1 : 0 ≤ Dec.chopRound (p.amt * Dec.P * (p.twa * Dec.P)) := chopRound_nonneg _ (by positivity)
+    generalize Dec.chopRound (p.amt * Dec.P * (p.twa * Dec.P)) = v at *
+    have h2 : 0 ≤ (v * (Dec.P * Dec.P)).tdiv (p.dec * Dec.P) := by
+      rw [Int.tdiv_eq_ediv_of_nonneg (by positivity)]
+      exact Int.ediv_nonneg (by positivity) (by positivity)
+    have h3 := chopRound_nonneg _ h2
+    generalize Dec.chopRound ((v * (Dec.P * Dec.P)).tdiv (p.dec * Dec.P)) = q at *
+    exact chopRound_nonneg _ (by positivity)
+
+theorem childValue_nonneg (ps : List Pos) (h : ∀ p ∈ ps, 0 ≤ p.amt ∧ 0 < p.dec) : 0 ≤ childValue ps := by
+  unfold childValue
+  apply sumL_nonneg
+  intro x hx
+  obtain ⟨p, hp, rfl⟩ := List.mem_map.mp hx
+  exact posValue_nonneg p (h p hp).1 (h p hp).2
+
+theorem weight_nonneg (f : Farmer) (hm : 0 ≤ f.master.amt ∧ 0 < f.master.dec)
+    (hc : ∀ p ∈ f.children, 0 ≤ p.amt ∧ 0 < p.dec) : 0 ≤ weight f := by
+  unfold weight minD
+  split
+  · exact posValue_nonneg _ hm.1 hm.2
+  · exact childValue_nonneg _ hc
+
 end Comdex.Gauge
